@@ -26,11 +26,16 @@ type opT struct {
 	N   int64  `json:"n"`   // literal = N * 10^-S
 	S   int    `json:"s"`   // 0 = integer literal (int64 key), >0 = decimal literal
 	Dec bool   `json:"dec"` // pass the literal as *apd.Decimal even when S = 0
+	Col  int   `json:"col,omitempty"`  // index column the call addresses
+	Lits []opT `json:"lits,omitempty"` // in / notin: the key list (N, S, Dec of each)
 }
 type caseT struct {
-	Kind  string   `json:"kind"` // builder | engine
+	K     int      `json:"k,omitempty"` // builder: number of index columns (1: KEY ia(a), 2: KEY ibc(b,c))
+	Kind  string   `json:"kind"` // builder | engine | boxes | dml
 	Ops   []opT    `json:"ops,omitempty"`
 	Where string   `json:"where,omitempty"`
+	Stmts []string `json:"stmts,omitempty"` // dml: statements with "%T" for the table name; lines starting with "?" are lookups (WHERE text)
+	Rows  []string `json:"rows,omitempty"`  // dml: initial rows "(pk,a,b)"
 }
 
 var litBase = []int64{0, 1, -1, 2, 3, 5, -3, 2147483647, 2147483646, 2147483648, -2147483648, -2147483647, -2147483649, 99999999999, -99999999999}
@@ -59,27 +64,49 @@ func genLit(r *lib.RNG) (int64, int, bool) {
 	}
 }
 
-var opNames = []string{"eq", "ne", "gt", "ge", "lt", "le", "null", "notnull"}
+var opNames = []string{"eq", "ne", "gt", "ge", "lt", "le", "null", "notnull", "in", "notin"}
 
 func genBuilder(r *lib.RNG) caseT {
+	k := 1
+	if r.Chance(1, 2) {
+		k = 2
+	}
 	n := r.Range(1, 3)
+	if k == 2 {
+		n = r.Range(1, 5)
+	}
 	ops := make([]opT, n)
 	for i := range ops {
-		o := opT{Op: opNames[r.Intn(len(opNames))]}
-		if r.Chance(1, 8) {
+		o := opT{Op: opNames[r.Intn(len(opNames))], Col: r.Intn(k)}
+		switch {
+		case r.Chance(1, 8):
 			o.Op = lib.Pick(r, []string{"null", "notnull"})
-		} else if o.Op != "null" && o.Op != "notnull" {
+		case o.Op == "in" || o.Op == "notin":
+			m := r.Range(1, 3)
+			for j := 0; j < m; j++ {
+				var l opT
+				l.N, l.S, l.Dec = genLit(r)
+				if r.Chance(1, 2) {
+					l.N, l.S, l.Dec = int64(r.Intn(6)), 0, false
+				}
+				o.Lits = append(o.Lits, l)
+			}
+		case o.Op != "null" && o.Op != "notnull":
 			o.N, o.S, o.Dec = genLit(r)
+			if k == 2 && r.Chance(1, 2) {
+				o.N, o.S, o.Dec = int64(r.Intn(6)), 0, false
+			}
 		}
 		ops[i] = o
 	}
-	return caseT{Kind: "builder", Ops: ops}
+	return caseT{Kind: "builder", K: k, Ops: ops}
 }
 
 type world struct {
-	e   *eng.E
-	s   *eng.S
-	idx sql.Index
+	e    *eng.E
+	s    *eng.S
+	idx  sql.Index // KEY ia (a)
+	idx2 sql.Index // KEY ibc (b, c)
 }
 
 var domainVals = []string{"NULL", "-2147483648", "-2147483647", "-3", "-1", "0", "1", "2", "3", "5", "2147483646", "2147483647"}
@@ -102,6 +129,22 @@ func setup() *world {
 	for _, t := range []string{"ti", "tn"} {
 		s.MustExec("INSERT INTO " + t + " VALUES " + strings.Join(rows, ","))
 	}
+	// dense two-column grid for OR-of-boxes filters on a two-column index
+	s.MustExec(
+		"CREATE TABLE gi (pk INT PRIMARY KEY, a INT, b INT, KEY iab (a, b))",
+		"CREATE TABLE gn (pk INT, a INT, b INT)")
+	var grows []string
+	gpk := 0
+	gvals := []string{"NULL", "0", "1", "2", "3", "4", "5", "6", "7", "8", "9", "10", "11"}
+	for _, a := range gvals {
+		for _, b := range gvals {
+			gpk++
+			grows = append(grows, fmt.Sprintf("(%d,%s,%s)", gpk, a, b))
+		}
+	}
+	for _, t := range []string{"gi", "gn"} {
+		s.MustExec("INSERT INTO " + t + " VALUES " + strings.Join(grows, ","))
+	}
 	w := &world{e: e, s: s}
 	db, err := e.Pro.Database(s.Ctx, "db")
 	if err != nil {
@@ -118,6 +161,9 @@ func setup() *world {
 	for _, ix := range idxs {
 		if strings.EqualFold(ix.ID(), "ia") {
 			w.idx = ix
+		}
+		if strings.EqualFold(ix.ID(), "ibc") {
+			w.idx2 = ix
 		}
 	}
 	if w.idx == nil {
@@ -146,6 +192,22 @@ func litKey(o opT) (interface{}, sql.Type) {
 // independent evaluation of one comparison on a column value (nil = NULL): true iff the SQL result is TRUE
 func opTrue(o opT, v *int64) bool {
 	switch o.Op {
+	case "in":
+		for _, l := range o.Lits {
+			l.Op = "eq"
+			if opTrue(l, v) {
+				return true
+			}
+		}
+		return false
+	case "notin":
+		for _, l := range o.Lits {
+			l.Op = "ne"
+			if !opTrue(l, v) {
+				return false
+			}
+		}
+		return true
 	case "null":
 		return v == nil
 	case "notnull":
@@ -226,8 +288,18 @@ func rangesHave(rs sql.MySQLRangeCollection, v *int64) bool {
 	return false
 }
 
+func coqLit(o opT) string { return fmt.Sprintf("(%s, %d%%nat)", lib.CoqZ(o.N), o.S) }
+func coqBop(o opT) string {
+	switch o.Op {
+	case "in":
+		return fmt.Sprintf("(BIn %d%%nat %s)", o.Col, lib.CoqListOf(o.Lits, coqLit))
+	case "notin":
+		return fmt.Sprintf("(BNotIn %d%%nat %s)", o.Col, lib.CoqListOf(o.Lits, coqLit))
+	}
+	return fmt.Sprintf("(BOp %d%%nat %s)", o.Col, coqOp(o))
+}
 func coqOp(o opT) string {
-	lit := fmt.Sprintf("(%s, %d%%nat)", lib.CoqZ(o.N), o.S)
+	lit := coqLit(o)
 	switch o.Op {
 	case "eq":
 		return "(OEq " + lit + ")"
@@ -248,6 +320,14 @@ func coqOp(o opT) string {
 }
 
 func opSig(o opT) string {
+	if o.Op == "in" || o.Op == "notin" {
+		parts := make([]string, len(o.Lits))
+		for i, l := range o.Lits {
+			l.Op = "k"
+			parts[i] = strings.TrimPrefix(opSig(l), "k/")
+		}
+		return o.Op + "(" + strings.Join(parts, ",") + ")"
+	}
 	k := "int"
 	if o.S > 0 || o.Dec {
 		k = "integral-decimal"
@@ -268,99 +348,163 @@ func opSig(o opT) string {
 	return o.Op + "/" + k + "/" + rng
 }
 
+func rangesHaveT(rs sql.MySQLRangeCollection, t []*int64) bool {
+	for _, r := range rs {
+		if len(r) != len(t) {
+			continue
+		}
+		ok := true
+		for i := range r {
+			if !(cutBelow(r[i].LowerBound, t[i]) && !cutBelow(r[i].UpperBound, t[i])) {
+				ok = false
+				break
+			}
+		}
+		if ok {
+			return true
+		}
+	}
+	return false
+}
+
 func runBuilder(c *lib.Ctx, w *world, cs caseT) {
 	ctx := w.s.Ctx
-	b := sql.NewMySQLIndexBuilder(ctx, w.idx)
+	if cs.K == 0 {
+		cs.K = 1
+	}
+	idx, names := w.idx, []string{"ti.a"}
+	if cs.K == 2 {
+		idx, names = w.idx2, []string{"ti.b", "ti.c"}
+	}
+	b := sql.NewMySQLIndexBuilder(ctx, idx)
 	for _, o := range cs.Ops {
+		name := names[o.Col]
 		key, kt := litKey(o)
 		switch o.Op {
 		case "eq":
-			b.Equals(ctx, "ti.a", kt, key)
+			b.Equals(ctx, name, kt, key)
 		case "ne":
-			b.NotEquals(ctx, "ti.a", kt, key)
+			b.NotEquals(ctx, name, kt, key)
 		case "gt":
-			b.GreaterThan(ctx, "ti.a", kt, key)
+			b.GreaterThan(ctx, name, kt, key)
 		case "ge":
-			b.GreaterOrEqual(ctx, "ti.a", kt, key)
+			b.GreaterOrEqual(ctx, name, kt, key)
 		case "lt":
-			b.LessThan(ctx, "ti.a", kt, key)
+			b.LessThan(ctx, name, kt, key)
 		case "le":
-			b.LessOrEqual(ctx, "ti.a", kt, key)
+			b.LessOrEqual(ctx, name, kt, key)
 		case "null":
-			b.IsNull(ctx, "ti.a")
+			b.IsNull(ctx, name)
 		case "notnull":
-			b.IsNotNull(ctx, "ti.a")
+			b.IsNotNull(ctx, name)
+		case "in", "notin":
+			keys := make([]interface{}, len(o.Lits))
+			kts := make([]sql.Type, len(o.Lits))
+			for i, l := range o.Lits {
+				keys[i], kts[i] = litKey(l)
+			}
+			if o.Op == "in" {
+				b.In(ctx, name, kts, keys)
+			} else {
+				b.NotIn(ctx, name, kts, keys)
+			}
 		}
 	}
 	_, buildErr := b.Build(ctx)
 	rs := b.Ranges(ctx)
 	c.Count("kind_builder")
-	for _, o := range cs.Ops {
-		c.Count("builder_op_" + opSig(o))
+	c.Count(fmt.Sprintf("builder_%dcol", cs.K))
+	sigs := make([]string, len(cs.Ops))
+	for i, o := range cs.Ops {
+		sigs[i] = opSig(o)
+		c.Count("builder_op_" + strings.SplitN(sigs[i], "(", 2)[0])
 	}
 	if buildErr != nil || rs == nil {
 		id := c.CaseNoModel(cs, "")
-		c.PredFail(id, "builder/error/"+opSig(cs.Ops[len(cs.Ops)-1]), fmt.Sprintf("builder returned an error for %+v: %v", cs.Ops, buildErr), cs)
+		c.PredFail(id, "builder/error/"+sigs[len(sigs)-1], fmt.Sprintf("builder returned an error for %+v: %v", cs.Ops, buildErr), cs)
 		return
 	}
-	cols := make([]string, 0, len(rs))
+	rstr := make([]string, 0, len(rs))
 	for _, r := range rs {
-		if len(r) != 1 {
-			panic("one-column range expected")
+		if len(r) != cs.K {
+			panic("range width differs from the number of index columns")
 		}
-		cols = append(cols, "(mkR "+coqCut(r[0].LowerBound)+" "+coqCut(r[0].UpperBound)+")")
+		cols := make([]string, len(r))
+		for i := range r {
+			cols[i] = "(mkR " + coqCut(r[i].LowerBound) + " " + coqCut(r[i].UpperBound) + ")"
+		}
+		rstr = append(rstr, lib.CoqList(cols))
 	}
-	term := lib.CoqTuple(lib.CoqListOf(cs.Ops, coqOp), lib.CoqList(cols))
-	id := c.Case(term, cs, fmt.Sprint(cs.Ops))
+	if len(rs) > 1 {
+		c.Count("builder_multiple_ranges")
+	}
+	term := lib.CoqTuple(fmt.Sprintf("%d%%nat", cs.K), lib.CoqListOf(cs.Ops, coqBop), lib.CoqList(rstr))
+	id := c.Case(term, cs, fmt.Sprint(cs.K, cs.Ops))
 	c.PredChecked()
-	// candidate column values: NULL, int32 bounds, and the neighbourhood of every literal
-	cand := map[int64]bool{-2147483648: true, 2147483647: true, 0: true}
-	for _, o := range cs.Ops {
-		q := o.N / pow10(o.S)
-		for d := int64(-2); d <= 2; d++ {
-			if v := q + d; v >= -2147483648 && v <= 2147483647 {
-				cand[v] = true
+	// candidate values per column: NULL, int32 bounds, 0, and the neighbourhood of every literal used on it
+	cands := make([][]*int64, cs.K)
+	for col := 0; col < cs.K; col++ {
+		set := map[int64]bool{-2147483648: true, 2147483647: true, 0: true}
+		add := func(o opT) {
+			q := o.N / pow10(o.S)
+			for d := int64(-2); d <= 2; d++ {
+				if v := q + d; v >= -2147483648 && v <= 2147483647 {
+					set[v] = true
+				}
 			}
+		}
+		for _, o := range cs.Ops {
+			if o.Col != col {
+				continue
+			}
+			add(o)
+			for _, l := range o.Lits {
+				add(l)
+			}
+		}
+		keys := make([]int64, 0, len(set))
+		for v := range set {
+			keys = append(keys, v)
+		}
+		sort.Slice(keys, func(i, j int) bool { return keys[i] < keys[j] })
+		cands[col] = append(cands[col], nil)
+		for i := range keys {
+			cands[col] = append(cands[col], &keys[i])
 		}
 	}
-	check := func(v *int64) bool {
-		want := true
-		for _, o := range cs.Ops {
-			want = want && opTrue(o, v)
+	var rec func(col int, t []*int64) bool
+	rec = func(col int, t []*int64) bool {
+		if col == cs.K {
+			want := true
+			for _, o := range cs.Ops {
+				want = want && opTrue(o, t[o.Col])
+			}
+			if got := rangesHaveT(rs, t); got != want {
+				vs := make([]string, len(t))
+				for i, v := range t {
+					vs[i] = "NULL"
+					if v != nil {
+						vs[i] = fmt.Sprint(*v)
+					}
+				}
+				kind := "lookup-misses-matching-row"
+				if got {
+					kind = "lookup-returns-nonmatching-row"
+				}
+				c.PredFail(id, fmt.Sprintf("builder/%s/%dcol/%s", kind, cs.K, strings.Join(sigs, "+")),
+					fmt.Sprintf("ops %+v: ranges %v, key tuple (%s): in ranges = %v, filter TRUE = %v", cs.Ops, rs, strings.Join(vs, ","), got, want), cs)
+				return false
+			}
+			return true
 		}
-		if got := rangesHave(rs, v); got != want {
-			vs := "NULL"
-			if v != nil {
-				vs = fmt.Sprint(*v)
+		for _, v := range cands[col] {
+			if !rec(col+1, append(t, v)) {
+				return false
 			}
-			kind := "lookup-misses-matching-row"
-			if got {
-				kind = "lookup-returns-nonmatching-row"
-			}
-			sigs := make([]string, len(cs.Ops))
-			for i, o := range cs.Ops {
-				sigs[i] = opSig(o)
-			}
-			c.PredFail(id, "builder/"+kind+"/"+strings.Join(sigs, "+"),
-				fmt.Sprintf("ops %+v: ranges %v, column value %s: in ranges = %v, filter TRUE = %v", cs.Ops, rs, vs, got, want), cs)
-			return false
 		}
 		return true
 	}
-	if !check(nil) {
-		return
-	}
-	keys := make([]int64, 0, len(cand))
-	for v := range cand {
-		keys = append(keys, v)
-	}
-	sort.Slice(keys, func(i, j int) bool { return keys[i] < keys[j] })
-	for _, v := range keys {
-		v := v
-		if !check(&v) {
-			return
-		}
-	}
+	rec(0, nil)
 }
 
 // ---------- engine level ----------
@@ -458,11 +602,179 @@ func runEngine(c *lib.Ctx, w *world, cs caseT) {
 	}
 }
 
+
+// ---------- OR of boxes on the two-column index (a, b) of the grid tables ----------
+func genSide(r *lib.RNG, col string) string {
+	k := func() int { return r.Intn(12) }
+	switch r.Intn(9) {
+	case 0:
+		return fmt.Sprintf("%s = %d", col, k())
+	case 1, 2, 3:
+		lo := r.Intn(9)
+		return fmt.Sprintf("%s BETWEEN %d AND %d", col, lo, lo+r.Range(0, 9))
+	case 4:
+		return fmt.Sprintf("%s < %d", col, k())
+	case 5:
+		return fmt.Sprintf("%s >= %d", col, k())
+	case 6:
+		lo := r.Intn(9)
+		return fmt.Sprintf("(%s > %d AND %s <= %d)", col, lo, col, lo+r.Range(1, 6))
+	case 7:
+		return col + " IS NULL"
+	default:
+		return fmt.Sprintf("%s IN (%d, %d)", col, k(), k())
+	}
+}
+func genBoxes(r *lib.RNG) string {
+	n := r.Range(2, 4)
+	boxes := make([]string, n)
+	for i := range boxes {
+		switch r.Intn(6) {
+		case 0:
+			boxes[i] = "(" + genSide(r, "a") + ")"
+		default:
+			boxes[i] = "(" + genSide(r, "a") + " AND " + genSide(r, "b") + ")"
+		}
+	}
+	return strings.Join(boxes, " OR ")
+}
+
+func compareLookup(c *lib.Ctx, w *world, id int, cs caseT, kind, ti, tn, cols, where, ctxt string) bool {
+	ri := w.s.Query("SELECT " + cols + " FROM " + ti + " WHERE " + where)
+	rn := w.s.Query("SELECT " + cols + " FROM " + tn + " WHERE " + where)
+	if ri.Panic != "" || rn.Panic != "" {
+		c.PredFail(id, kind+"/panic", fmt.Sprintf("%s%s: panic indexed=%q twin=%q", ctxt, where, ri.Panic, rn.Panic), cs)
+		return false
+	}
+	if (ri.Err != nil) != (rn.Err != nil) {
+		c.PredFail(id, kind+"/error-differs", fmt.Sprintf("%s%s: indexed err=%v twin err=%v", ctxt, where, ri.Err, rn.Err), cs)
+		return false
+	}
+	if ri.Err != nil {
+		return true
+	}
+	bi, bn := eng.Bag(ri.Rows), eng.Bag(rn.Rows)
+	if strings.Join(bi, "|") != strings.Join(bn, "|") {
+		c.PredFail(id, kind+"/rows-differ", fmt.Sprintf("%sWHERE %s: indexed table returns %d rows %v, twin %d rows %v", ctxt, where, len(bi), bi, len(bn), bn), cs)
+		return false
+	}
+	if len(bi) > 0 {
+		c.Count(strings.ReplaceAll(kind, "/", "_") + "_nonempty_result")
+	}
+	return true
+}
+
+func runBoxes(c *lib.Ctx, w *world, cs caseT) {
+	c.Count("kind_boxes")
+	id := c.CaseNoModel(cs, cs.Where)
+	c.PredChecked()
+	kind := "boxes"
+	if strings.Contains(cs.Where, "IN (") {
+		kind = "boxes/in-list"
+	}
+	compareLookup(c, w, id, cs, kind, "gi", "gn", "pk, a, b", cs.Where, "")
+}
+
+// ---------- DML between lookups: secondary indexes must follow rewrites of existing primary keys ----------
+var dmlSeq int
+
+func genDML(r *lib.RNG) caseT {
+	v := func() string {
+		if r.Chance(1, 8) {
+			return "NULL"
+		}
+		return fmt.Sprint(r.Intn(5))
+	}
+	var cs caseT
+	cs.Kind = "dml"
+	npk := r.Range(3, 7)
+	for pk := 1; pk <= npk; pk++ {
+		cs.Rows = append(cs.Rows, fmt.Sprintf("(%d,%s,%s)", pk, v(), v()))
+	}
+	lookup := func() string {
+		switch r.Intn(5) {
+		case 0:
+			return fmt.Sprintf("?a = %d", r.Intn(5))
+		case 1:
+			return fmt.Sprintf("?a = %d AND b = %d", r.Intn(5), r.Intn(5))
+		case 2:
+			return fmt.Sprintf("?a >= %d", r.Intn(5))
+		case 3:
+			return "?a IS NULL"
+		default:
+			return fmt.Sprintf("?b = %d", r.Intn(5))
+		}
+	}
+	n := r.Range(2, 6)
+	for i := 0; i < n; i++ {
+		pk := r.Range(1, npk+1)
+		switch r.Intn(7) {
+		case 0:
+			cs.Stmts = append(cs.Stmts, fmt.Sprintf("UPDATE %%T SET a = %s WHERE pk = %d", v(), pk))
+		case 1:
+			cs.Stmts = append(cs.Stmts, fmt.Sprintf("UPDATE %%T SET a = %s, b = %s WHERE pk = %d", v(), v(), pk))
+		case 2:
+			cs.Stmts = append(cs.Stmts, fmt.Sprintf("REPLACE INTO %%T VALUES (%d,%s,%s)", pk, v(), v()))
+		case 3:
+			cs.Stmts = append(cs.Stmts, fmt.Sprintf("INSERT INTO %%T VALUES (%d,%s,%s) ON DUPLICATE KEY UPDATE a = %s", pk, v(), v(), v()))
+		case 4:
+			cs.Stmts = append(cs.Stmts, fmt.Sprintf("INSERT INTO %%T VALUES (%d,%s,%s) ON DUPLICATE KEY UPDATE a = VALUES(a), b = b", pk, v(), v()))
+		case 5:
+			cs.Stmts = append(cs.Stmts, fmt.Sprintf("DELETE FROM %%T WHERE pk = %d", pk))
+		default:
+			cs.Stmts = append(cs.Stmts, fmt.Sprintf("UPDATE %%T SET b = %s WHERE a = %d", v(), r.Intn(5)))
+		}
+		cs.Stmts = append(cs.Stmts, lookup())
+		if r.Chance(1, 2) {
+			cs.Stmts = append(cs.Stmts, lookup())
+		}
+	}
+	return cs
+}
+
+func runDML(c *lib.Ctx, w *world, cs caseT) {
+	dmlSeq++
+	ti, tn := fmt.Sprintf("di%d", dmlSeq), fmt.Sprintf("dn%d", dmlSeq)
+	// the twin keeps the primary key (REPLACE / ON DUPLICATE KEY need it) but has no secondary index
+	w.s.MustExec(
+		"CREATE TABLE "+ti+" (pk INT PRIMARY KEY, a INT, b INT, KEY ia (a), KEY iab (a, b), KEY ib (b))",
+		"CREATE TABLE "+tn+" (pk INT PRIMARY KEY, a INT, b INT)")
+	defer w.s.MustExec("DROP TABLE "+ti, "DROP TABLE "+tn)
+	for _, t := range []string{ti, tn} {
+		w.s.MustExec("INSERT INTO " + t + " VALUES " + strings.Join(cs.Rows, ","))
+	}
+	c.Count("kind_dml")
+	id := c.CaseNoModel(cs, fmt.Sprint(cs.Rows, cs.Stmts))
+	c.PredChecked()
+	last := "(initial rows)"
+	for _, st := range cs.Stmts {
+		if strings.HasPrefix(st, "?") {
+			kind := "dml-lookup/after-" + strings.ToLower(strings.Fields(last)[0])
+			if strings.Contains(last, "ON DUPLICATE") {
+				kind = "dml-lookup/after-on-duplicate-key-update"
+			}
+			if !compareLookup(c, w, id, cs, kind, ti, tn, "pk, a, b", st[1:], "after `"+last+"`: ") {
+				return
+			}
+			continue
+		}
+		ri := w.s.Query(strings.ReplaceAll(st, "%T", ti))
+		rn := w.s.Query(strings.ReplaceAll(st, "%T", tn))
+		last = strings.ReplaceAll(st, "%T", "t")
+		c.Count("dml_stmt_" + strings.ToLower(strings.Fields(st)[0]))
+		if (ri.Err != nil) != (rn.Err != nil) || ri.Panic != "" || rn.Panic != "" {
+			c.PredFail(id, "dml/statement-outcome-differs/"+strings.ToLower(strings.Fields(st)[0]),
+				fmt.Sprintf("`%s`: indexed err=%v twin err=%v", last, ri.Err, rn.Err), cs)
+			return
+		}
+	}
+}
+
 var explainEvery = 25
 
 func main() {
 	lib.Main("C03", func(c *lib.Ctx) {
-		c.Header = "From Coq Require Import List NArith ZArith.\nImport ListNotations.\nFrom GMS Require Import Range.Cut Range.C03IndexBuilder Corr.C03.\nOpen Scope N_scope."
+		c.Header = "From Coq Require Import List NArith ZArith.\nImport ListNotations.\nFrom GMS Require Import Range.Cut Range.C03IndexBuilder Range.C03Multi Corr.C03.\nOpen Scope N_scope."
 		c.CaseType = "C03.case"
 		c.MismatchFn = "C03.mismatches"
 		c.SetRule("builder cases: 1-3 calls of Equals/NotEquals/GreaterThan/GreaterOrEqual/LessThan/LessOrEqual/IsNull/IsNotNull on INT index " +
@@ -470,7 +782,10 @@ func main() {
 			"decimal (scale 1-2); ranges compared with the model, membership of NULL/int32 bounds/literal neighbourhood compared with a big.Rat " +
 			"evaluation. engine cases: WHERE trees of depth <= 2 over a (KEY), (b,c) (KEY), pk (PRIMARY) with =,<>,<,<=,>,>=,<=>,[NOT] IN,BETWEEN," +
 			"IS [NOT] NULL,NOT(..) and the same literals (+NULL) on an indexed table and an index-free twin with identical 36 rows. " +
-			"Non-trivial: every case; distinct = distinct op lists / WHERE texts.")
+			"boxes cases: OR of 2-4 boxes (per-column =, BETWEEN, <, >=, half-open, IS NULL, IN) on KEY(a,b) of a dense 13x13 grid (NULL,0..11) vs an " +
+			"index-free twin. dml cases: fresh table with KEY(a), KEY(a,b), KEY(b) vs a twin with only the primary key; 2-6 statements (UPDATE by pk / by a, " +
+			"REPLACE, INSERT .. ON DUPLICATE KEY UPDATE, DELETE) each followed by 1-2 secondary-index lookups compared with the twin. " +
+			"Non-trivial: every case; distinct = distinct op lists / WHERE texts / statement lists.")
 		w := setup()
 		if os.Getenv("C03_DEBUG") != "" {
 			for _, q := range strings.Split(os.Getenv("C03_DEBUG"), ";") {
@@ -483,9 +798,14 @@ func main() {
 		}
 		run := func(cs caseT) {
 			p, pv := lib.Recover(func() {
-				if cs.Kind == "builder" {
+				switch cs.Kind {
+				case "builder":
 					runBuilder(c, w, cs)
-				} else {
+				case "boxes":
+					runBoxes(c, w, cs)
+				case "dml":
+					runDML(c, w, cs)
+				default:
 					runEngine(c, w, cs)
 				}
 			})
@@ -509,6 +829,11 @@ func main() {
 			{Kind: "builder", Ops: []opT{{Op: "lt", N: -2147483649}}},
 			{Kind: "builder", Ops: []opT{{Op: "ge", N: 21474836465, S: 1, Dec: true}}},
 			{Kind: "builder", Ops: []opT{{Op: "null"}, {Op: "gt", N: 0}}},
+			{Kind: "builder", K: 1, Ops: []opT{{Op: "in", Lits: []opT{{N: 15, S: 1, Dec: true}}}}},
+			{Kind: "builder", K: 1, Ops: []opT{{Op: "in", Lits: []opT{{N: 2}, {N: 299, S: 2, Dec: true}, {N: 2147483648}}}, {Op: "notin", Lits: []opT{{N: 2}, {N: 5}}}}},
+			{Kind: "builder", K: 2, Ops: []opT{{Op: "ne", N: 2}, {Op: "in", Col: 1, Lits: []opT{{N: 1}, {N: 3}, {N: 5}}}, {Op: "ne", N: 4}}},
+			{Kind: "builder", K: 2, Ops: []opT{{Op: "ge", N: 1}, {Op: "le", N: 3}, {Op: "notin", Col: 1, Lits: []opT{{N: 0}, {N: 15, S: 1, Dec: true}}}}},
+			{Kind: "builder", K: 2, Ops: []opT{{Op: "gt", Col: 1, N: 5}, {Op: "lt", Col: 1, N: 5}}},
 			{Kind: "engine", Where: "a > 1.5"},
 			{Kind: "engine", Where: "a BETWEEN 5 AND 3"},
 			{Kind: "engine", Where: "(b = 1 AND c < 2.5) OR b IS NULL"},
@@ -518,16 +843,26 @@ func main() {
 			{Kind: "engine", Where: "a IS NULL OR NOT (a > 2)"},
 			{Kind: "engine", Where: "(b <= 3 OR b IS NULL) AND c IS NOT NULL"},
 			{Kind: "engine", Where: "a < 2 OR a IS NULL"},
+			{Kind: "boxes", Where: "(a BETWEEN 1 AND 10 AND b = 5) OR (a BETWEEN 3 AND 6 AND b BETWEEN 1 AND 9)"},
+			{Kind: "boxes", Where: "(a BETWEEN 3 AND 6 AND b BETWEEN 1 AND 9) OR (a BETWEEN 1 AND 10 AND b = 5) OR (a IS NULL)"},
+			{Kind: "boxes", Where: "(a = 2 AND b < 4) OR (a BETWEEN 0 AND 5 AND b BETWEEN 2 AND 3) OR (a >= 4 AND b >= 3)"},
+			{Kind: "dml", Rows: []string{"(1,1,1)", "(2,2,2)"}, Stmts: []string{"UPDATE %T SET a = 3 WHERE pk = 1", "?a = 1", "?a = 3",
+				"REPLACE INTO %T VALUES (2,4,4)", "?a = 2", "?a = 2 AND b = 2", "INSERT INTO %T VALUES (1,0,0) ON DUPLICATE KEY UPDATE a = 0", "?a = 3", "?a = 0"}},
 		}
 		for _, cs := range corpus {
 			run(cs)
 		}
 		for i := len(corpus); i < c.N; i++ {
 			r := c.R.Fork()
-			if r.Chance(1, 2) {
+			switch k := r.Intn(10); {
+			case k < 4:
 				run(genBuilder(r))
-			} else {
+			case k < 7:
 				run(caseT{Kind: "engine", Where: genPred(r, 2)})
+			case k < 9:
+				run(caseT{Kind: "boxes", Where: genBoxes(r)})
+			default:
+				run(genDML(r))
 			}
 		}
 	})
